@@ -257,6 +257,9 @@ template <class TM, class SM> struct Harness {
       // tol is honoured
       { WS ws; auto r2 = run(three, &ws, eps, 1e-300); ++c.st.comparisons; if (r2.valid && r2.error_norm > 0) { fail("selfcheck-eps-tol", "tol is ignored"); return; } }
       // every single wrong gradient component
+      // (the cost does not depend on what a functor writes into its gradient outputs, so the central differences of a check with a perturbed
+      //  functor are those of the correct one, bit for bit: `numc`)
+      Eigen::VectorXd numc; { WS wn; numc = run(three, &wn, eps, tol).numerical; }
       Eigen::VectorXd gc = analytic(three);
       struct Pert { int kind, a, b; };  // 0 time cost comp a; 1 waypoint (a,b); 2 running output a comp b
       std::vector<Pert> ps; for (int i = 0; i < N; ++i) ps.push_back({0, i, 0});
@@ -275,6 +278,11 @@ template <class TM, class SM> struct Harness {
           WS wb; auto rb = run(three, &wb, eps, tol); ++c.st.comparisons; tc = tcs; wc = wcs; rc = rcs;
           if (rb.valid) { fail("selfcheck-misses-wrong-gradient", fmt("%s gradient component (%d,%d) is %s (the cost is finite and the component influences the gradient) but valid=true, error_norm=%.3g", pp.kind == 0 ? "time-cost" : pp.kind == 1 ? "waypoint-cost" : "running-cost", pp.a, pp.b, std::isnan(bad) ? "NaN" : "+Inf", rb.error_norm)); return; } }
         { const std::string rep = r.makeReport(); if ((rep.find("PASSED") != std::string::npos) != r.valid || (rep.find("FAILED") != std::string::npos) == r.valid) { fail("selfcheck-report", "makeReport() text contradicts the valid flag: " + rep); return; } }
+        // a FAILING report is still a full report: both vectors complete, the norms by their definitions (seeded change C19-m7: the loop stops at
+        // the first offending component and leaves the rest of `numerical` at zero)
+        if (std::isfinite(delta)) { const double en = (gp - numc).norm(), gn = gp.norm();
+          if (r.analytical.size() != n || r.numerical.size() != n || !bits_equal(r.analytical.data(), gp.data(), n) || !bits_equal(r.numerical.data(), numc.data(), n)) { fail("selfcheck-report-on-failure", fmt("%s gradient component (%d,%d) wrong: the returned analytical / numerical vectors are not evaluate()'s gradient / the central differences of the cost (valid=%d)", kn, pp.a, pp.b, (int)r.valid)); return; }
+          if (std::fabs(r.error_norm - en) > 1e-12 * (en + 1e-300) || std::fabs(r.rel_error - (gn > 1e-9 ? en / gn : en)) > 1e-12 * (r.rel_error + 1e-300)) { fail("selfcheck-report-on-failure", fmt("%s gradient component (%d,%d) wrong: error_norm %.17g / rel_error %.17g do not follow their definitions (%.17g)", kn, pp.a, pp.b, r.error_norm, r.rel_error, en)); return; } }
         if (e >= 10 * tol) { c.st.cls("C19: perturbed component influences the gradient -> must fail"); if (r.valid) { fail("selfcheck-misses-wrong-gradient", fmt("%s gradient component (%d,%d) wrong by %.3g (analytic gradient off by %.3g) but valid=true, error_norm=%.3g, eps %g tol %g", kn, pp.a, pp.b, delta, e, r.error_norm, eps, tol)); return; } }
         else if (e == 0.0) { c.st.cls("C19: perturbed component has no influence -> must still pass"); if (!r.valid) { fail("selfcheck-false-alarm", fmt("%s gradient component (%d,%d) does not influence the gradient, yet valid=false", kn, pp.a, pp.b)); return; } }
         else c.st.cls("C19: perturbation influence between 0 and 10 tol (verdict not asserted)");
